@@ -82,6 +82,7 @@ def check(tier, seed):
                 c.violation("correspondence c13 (acceptance: the model does not accept the implementation's output as a complete run: %s); output is still a feedback vertex set" % mo[i][:80],
                             {"component": "c13", "theorem_or_correspondence": "correspondence c13: extracted greedy_fvs replaying harness/c13.cpp output as picks",
                              "case": cases[i], "impl": io[i], "model": mo[i], **hd}, False)
+        lib.config_differential(c, "c13", ["c13.cpp"], cases[:nshort], io[:nshort], judge=judge)
         # graphs beyond the range of narrow index types (n > 2^8, n > 2^16): judged against the property text only
         bigs = [gen.graph_tokens(g) for g in gen.big_graphs(c.rng, fan=True)]
         bio = lib.run_lines([exe], bigs, par=1, timeout=600)
